@@ -7,7 +7,8 @@ the script only through edit_list / edits().
 import ast
 
 from .. import e1
-from ..astx import self_attr, walk_no_nested, dotted, call_name, parent, resolve_local
+from ..astx import self_attr, walk_no_nested, dotted, call_name, parent, resolve_local, func_params, \
+    flatten_conditions, dominating_conditions
 from ..core import norm
 from .. import pat
 
@@ -300,6 +301,106 @@ def r03d(ctx):
                           "the last element is frozen - the list then reports more than the sum of its sub-edits")
 
 
+def r03g(ctx):
+    m = ctx.model
+    ctx.rule("R03g", "sizes bound costs: compound edits cap their cost by from.total_size + to.total_size + 1 and invalidate "
+                     "themselves when the parts exceed it, so the computed leaf cost levenshtein(str(a), str(b)) <= "
+                     "max(len(str(a)), len(str(b))) must stay within the operands' sizes: a leaf class whose "
+                     "calculate_total_size is not len(str(self.object)) must be kept away from that computation on both sides "
+                     "(its own edits() override, and an isinstance guard before the computation)")
+    lq = m.need_class("LeafNode")
+    f = m.method(lq, "edits")
+    o = func_params(f.node)[1]
+    comp = [c for c in walk_no_nested(f.node) if isinstance(c, ast.Call) and call_name(c) == "Match"
+            and any(isinstance(x, ast.Call) and call_name(x) == "str" for x in ast.walk(c))]
+    ctx.floor("R03g", len(comp), 1, "computed-cost Match constructions in LeafNode.edits")
+    odd = []
+    for q in sorted(m.subclasses(lq, strict=True)):
+        own = m.attrs[q].get("calculate_total_size")
+        if own and own[0] == "def":
+            body = ast.unparse(own[1].node.body[-1]).replace(" ", "")
+            if body != "returnlen(str(self.object))":
+                odd.append((q, own[1]))
+    for c in comp:
+        facts = [(ast.unparse(t).replace(" ", ""), pol) for t, pol in flatten_conditions(dominating_conditions(c))]
+        for q, sz in odd:
+            short = q.rsplit(".", 1)[-1]
+            excluded = (f"isinstance({o},{short})", False) in facts
+            own_edits = m.attrs[q].get("edits")
+            self_side = bool(own_edits and own_edits[0] == "def" and not any(
+                isinstance(x, ast.Call) and isinstance(x.func, ast.Attribute) and x.func.attr == "edits"
+                and isinstance(x.func.value, ast.Call) and dotted(x.func.value.func) == "super" for x in ast.walk(own_edits[1].node)))
+            if excluded and self_side:
+                ctx.proved("R03g", f.file, "LeafNode.edits", c, f"{short} kept out of the computed cost",
+                           f"{short} (size `{norm(sz.node.body[-1], 40)}`) has its own edits() and is excluded by `not isinstance({o}, {short})` here")
+            else:
+                side = [] if excluded else [f"as `{o}` (no isinstance({o}, {short}) guard before the computation)"]
+                side += [] if self_side else ["as `self` (no own edits())"]
+                ctx.violation("R03g", f.file, "LeafNode.edits", c, f"{short} kept out of the computed cost",
+                              f"{short}.calculate_total_size is `{norm(sz.node.body[-1], 40)}`, not the length of its text, yet a {short} "
+                              f"reaches `{norm(c, 70)}` {' and '.join(side)}: the match can cost more than both sizes together "
+                              f"(5 -> null costs len('None') = 4 with sizes 1 and 0), so the sum of the parts can exceed the bound an "
+                              f"enclosing EditCollection derives from the sizes - it then invalidates itself ([-inf, inf], "
+                              f"ValueError in diff(), non-terminating refinement inside a positional list)")
+    if not odd:
+        ctx.proved("R03g", f.file, "LeafNode.edits", f.node, "sizes are text lengths", "no leaf class overrides calculate_total_size", nontrivial=False)
+
+
+def r03h(ctx):
+    m = ctx.model
+    ctx.rule("R03h", "multiplicity: MultiSetEdit lists leftovers with multiplicity (Counter.elements()) and the matcher works on "
+                     "element sequences, so (1) bounds() must count and enumerate the same collections with multiplicity - "
+                     "len(<Counter>) and `for x in <Counter>` see distinct values only - and (2) the matcher must keep its "
+                     "assignment by position, not in dicts keyed by the nodes themselves (nodes compare and hash by value, so "
+                     "equal elements collapse into one entry)")
+    q = m.need_class("MultiSetEdit")
+    init, b, e = (m.method(q, x) for x in ("__init__", "bounds", "edits"))
+    counters = set()
+    for a in walk_no_nested(init.node):
+        if isinstance(a, ast.Assign) and self_attr(a.targets[0]) and isinstance(a.value, ast.BinOp) and isinstance(a.value.op, ast.Sub):
+            counters.add(self_attr(a.targets[0]))
+    with_mult = {self_attr(x.func.value.left) if isinstance(x.func.value, ast.BinOp) else self_attr(x.func.value)
+                 for x in walk_no_nested(e.node) if isinstance(x, ast.Call) and isinstance(x.func, ast.Attribute) and x.func.attr == "elements"}
+    n = 0
+    for fld in sorted(counters & with_mult):
+        uses = [x for x in walk_no_nested(b.node) if (isinstance(x, ast.Call) and call_name(x) == "len" and x.args and self_attr(x.args[0]) == fld)
+                or (isinstance(x, ast.comprehension) and self_attr(x.iter) == fld) or (isinstance(x, ast.For) and self_attr(x.iter) == fld)]
+        n += 1
+        if uses:
+            ctx.violation("R03h", b.file, "MultiSetEdit.bounds", uses[0], f"self.{fld} counted without multiplicity",
+                          f"bounds() uses `{norm(uses[0] if not isinstance(uses[0], ast.comprehension) else uses[0].iter, 50)}` ({len(uses)} "
+                          f"use(s)) on the Counter self.{fld}: that counts / enumerates distinct values, while edits() lists "
+                          f"self.{fld} through .elements() (with multiplicity): for MultiSetNode([1,1,1]) -> MultiSetNode([]) the "
+                          f"compound reports 2 and its listed edits add up to 6")
+        else:
+            ctx.proved("R03h", b.file, "MultiSetEdit.bounds", b.node, f"self.{fld} counted without multiplicity",
+                       f"bounds() takes self.{fld} with multiplicity")
+    ctx.floor("R03h", n, 2, "leftover collections of MultiSetEdit")
+    wq = m.need_class("WeightedBipartiteMatcher")
+    k = 0
+    for mname in ("__init__", "matching"):
+        f = m.method(wq, mname)
+        for dc in walk_no_nested(f.node):
+            if not isinstance(dc, ast.DictComp):
+                continue
+            key = dc.key
+            by_node = (isinstance(key, ast.Subscript) and self_attr(key.value) in ("from_nodes", "to_nodes")) or \
+                (isinstance(key, ast.Name) and any(isinstance(g.iter, ast.Call) and call_name(g.iter) == "enumerate" and isinstance(g.target, ast.Tuple)
+                                                   and len(g.target.elts) == 2 and isinstance(g.target.elts[1], ast.Name)
+                                                   and g.target.elts[1].id == key.id for g in dc.generators))
+            if not by_node:
+                continue
+            k += 1
+            tgt = parent(dc)
+            name = self_attr(tgt.targets[0]) if isinstance(tgt, ast.Assign) else (self_attr(tgt.target) if isinstance(tgt, ast.AnnAssign) else "?")
+            ctx.violation("R03h", f.file, f"WeightedBipartiteMatcher.{mname}", dc, f"self.{name} keyed by node",
+                          f"`self.{name} = {{{norm(dc.key, 30)}: ...}}` is keyed by the nodes themselves; nodes hash and compare by value, "
+                          f"so equal elements of a multiset collapse into one entry: the assignment of MultiSetNode([1,1]) -> "
+                          f"MultiSetNode([2,2]) keeps one of its two pairs, and MultiSetEdit.edits() lists Remove + Insert for a pair "
+                          f"the matcher's bound already paid for (compound 2, listed edits 5)")
+    ctx.floor("R03h", k, 0, "node-keyed dicts in WeightedBipartiteMatcher")
+
+
 def r03e(ctx):
     m = ctx.model
     ctx.rule("R03e", "the matcher's cost and the multiset's script come from the same matching: WeightedBipartiteMatcher.bounds "
@@ -375,6 +476,8 @@ def run(ctx):
     r03c(ctx)
     r03e(ctx)
     r03d(ctx)
+    r03g(ctx)
+    r03h(ctx)
     from .c04 import r04d
     r04d(ctx)
     ctx.assume("arithmetic inside the third-party assignment solver and numpy accumulation is not analysed")
